@@ -1,6 +1,7 @@
 #ifndef FRG_STRING_HPP
 #define FRG_STRING_HPP
 
+#include <limits>
 #include <cstddef>
 #include <frg/hash.hpp>
 #include <frg/macros.hpp>
@@ -115,7 +116,11 @@ public:
 		for(size_t i = 0; i < _length; i++) {
 			if(!(_pointer[i] >= '0' && _pointer[i] <= '9'))
 				return null_opt;
-			value = value * 10 + (_pointer[i] - '0');
+			T digit = _pointer[i] - '0';
+			// A value that does not fit into T is not a number of that type.
+			if(value > (std::numeric_limits<T>::max() - digit) / 10)
+				return null_opt;
+			value = value * 10 + digit;
 		}
 		return value;
 	}
